@@ -317,7 +317,7 @@ func (ld *Loaded) explore(h *HarnessSpec, o ExploreOpts) *HarnessResult {
 					}
 					resultKeys[key]++
 				}
-				if p.sample != nil && len(res.Samples) < o.Samples {
+				if p.sample != nil && len(res.Samples) < 2*o.Samples {
 					res.Samples = append(res.Samples, p.sample)
 				}
 				if p.status == "unsupported" || p.status == "fuel" {
@@ -414,7 +414,7 @@ func (e *Engine) runPath(solver *Solver, h *HarnessSpec, trace []Decision, concr
 		}()
 		p.callSSA(nil, 0, h.Fn, nil, nil)
 	}()
-	if concrete == nil && p.status == "ok" && o.Samples > 0 && p.asserts+p.concAsserts > 0 {
+	if concrete == nil && p.status == "ok" && o.Samples > 0 && e.wantSample(h.Name, o.Samples) {
 		if m, r := p.currentModel(); r == Sat {
 			p.sample = p.modelInputs(m)
 		}
